@@ -88,6 +88,8 @@ def merge_stats(dirs):
                 t = tot.setdefault(k, {})
                 for kk, vv in v.items():
                     t[kk] = t.get(kk, 0) + vv
+            elif isinstance(v, float):
+                tot[k] = max(tot.get(k, 0.0), v)      # ratios (e.g. max_alloc_per_input_byte): worst shard
             elif k == "samples":
                 samples += v[:2]
     tot["samples"] = samples[:6]
